@@ -61,6 +61,38 @@ let model_obs (c : cfg) (p : path) (xs : pfx list) : string =
   Printf.sprintf "budget=%d split=%s wire=%s attrs=ok pid=ok" (int_of_z (budget c p))
     (join "." (List.map (fun l -> string_of_int (List.length l)) split)) (join "/" w)
 
+(* a case run on the real sender goroutine: replay q (AddPath), B (blocked in a Write: Dequeue if nothing is
+   in flight), m (the Write completed: EmitOne) through the extracted transition function *)
+let model_real (c : cfg) (p : path) (xs : pfx list) (obs : string list) : string option =
+  let arr = Array.of_list xs in
+  let s = ref init in
+  let err = ref None in
+  let fail m = if !err = None then err := Some m in
+  let stepo l = match step c !s l with Some s' -> s := s' | None -> fail "label not enabled in the model" in
+  List.iteri (fun i tok ->
+      if !err = None then
+        match tok.[0] with
+        | 'q' ->
+          (match String.split_on_char '-' (String.sub tok 1 (String.length tok - 1)) with
+           | [a; b] -> for j = int_of_string a to int_of_string b - 1 do stepo (Add (arr.(j), p)) done
+           | _ -> fail ("bad token " ^ tok))
+        | 'B' -> if !s.inflight = None then stepo (Dequeue (pkey p))
+        | 'm' ->
+          let old = !s.wire in
+          stepo EmitOne;
+          let got = match !s.wire with
+            | MAnn (_, _, len, l) :: r when r == old ->
+              Printf.sprintf "m%d:%d:%d" (int_of_z len) (List.length l) (nlri_hash l)
+            | _ -> "m<nothing written>" in
+          if got <> tok then fail (Printf.sprintf "step=%d model=%s impl=%s" i got tok)
+        | 'a' -> if tok <> "attrs=ok" then fail ("impl " ^ tok)
+        | 'p' -> if tok <> "pid=ok" then fail ("impl " ^ tok)
+        | 'S' -> fail "the implementation's sender goroutine stalled"
+        | _ -> fail ("unknown token " ^ tok)) obs;
+  if !err = None && not (quiescent !s) then
+    fail "the implementation is quiescent, the model still has prefixes queued or in flight";
+  !err
+
 let () =
   let compared = ref 0 and mism = ref 0 in
   iter_trace Sys.argv.(1) (fun id inp obs ->
@@ -84,6 +116,13 @@ let () =
           let cut s = if String.length s > 300 then String.sub s 0 300 ^ "..." else s in
           Printf.printf "CORR-MISMATCH case=%s model=%s impl=%s\n" id (cut m) (cut i)
         end
+      | [cs; ss; ps; runs; _real] ->
+        let c = parse_cfg cs in
+        let pid = int_of_string (String.sub ps 4 (String.length ps - 4)) in
+        let p = parse_shape 7 pid ss in
+        (match model_real c p (prefixes runs) obs with
+         | None -> ()
+         | Some m -> incr mism; Printf.printf "CORR-MISMATCH case=%s real-goroutine %s\n" id m)
       | _ -> incr mism; Printf.printf "CORR-MISMATCH case=%s unparsable input\n" id
     with e -> incr mism; Printf.printf "MODEL-ERROR case=%s %s\n" id (Printexc.to_string e));
   Printf.printf "STATS compared=%d mismatches=%d\n" !compared !mism
